@@ -942,7 +942,7 @@ class FlippedEncoding(LazyIndexMap):
                 axes = (axis.item(),)
             else:
                 axes = tuple(axis)
-        elif isinstance(axis, int):
+        elif isinstance(axis, (int, np.integer)):
             axes = (axis,)
         else:
             axes = tuple(axis)
